@@ -291,6 +291,14 @@ def string_cases(rng, fill):
         cases.append(lit_case("str", "escape.other", "'%s'" % s, ACCEPT, ["str", s], vtype="STRING"))
     cases.append(lit_case("str", "escape.quote", "'a$'b'", ACCEPT, ["str", "a$'b"], vtype="STRING"))
     cases.append(lit_case("str", "escape.dquote", '"a$"b"', ACCEPT, ["str", 'a$"b'], vtype="WSTRING"))
+    # '$' takes the next character with it: escaped quotes and escaped dollars at the start, at the end, alone, in a row
+    for q, other, vt, cellq in (("'", '"', "STRING", "quote"), ('"', "'", "WSTRING", "dquote")):
+        bodies = ["$" + q, "$$", "$$$" + q, "$" + q + "$" + q, "a$$", "$$a", "$" + q + "a", "a$" + q, "$$$$", other + "$" + q + other,
+                  "$" + q + " ", " $" + q, "$" + other, "x$" + q + "y$" + q + "z", "$$" + other]
+        for _ in range(12 + fill // 8):
+            bodies.append("".join(rng.choice(["$" + q, "$$", "$N", other, "a", "b ", "7"]) for _ in range(rng.randint(1, 6))))
+        for b in bodies:
+            cases.append(lit_case("str", "escape.%s.shapes" % cellq, q + b + q, ACCEPT, ["str", b], vtype=vt))
     return cases
 
 
